@@ -58,7 +58,7 @@ objects are untouched; a container that existed before keeps its contents
 unless it is reachable from instance `i` afterwards. -/
 structure WFrame (i : Nat) (w w' : World) : Prop where
   classes : w'.classes = w.classes
-  others : ∀ j, j ≠ i → j < w.insts.length → w'.insts[j]? = w.insts[j]?
+  others : ∀ j, j ≠ i → w'.insts[j]? = w.insts[j]?
   len : w.insts.length ≤ w'.insts.length
   ident : ∀ o, w.insts[i]? = some o → ∃ o', w'.insts[i]? = some o' ∧ o'.oid = o.oid ∧ o'.cls = o.cls
   le : w.ctx.alloc ≤ w'.ctx.alloc
@@ -69,7 +69,7 @@ structure WFrame (i : Nat) (w w' : World) : Prop where
   fcalls : ∃ l, w'.ctx.fcalls = w.ctx.fcalls ++ l ∧ ∀ f ∈ l, ∃ o, w.insts[i]? = some o ∧ f.2.1 = o.oid
 
 theorem WFrame.refl (i : Nat) (w : World) : WFrame i w w :=
-  ⟨rfl, fun _ _ _ => rfl, Nat.le_refl _, fun o h => ⟨o, h, rfl, rfl⟩, Nat.le_refl _, fun _ _ => Or.inl rfl,
+  ⟨rfl, fun _ _ => rfl, Nat.le_refl _, fun o h => ⟨o, h, rfl, rfl⟩, Nat.le_refl _, fun _ _ => Or.inl rfl,
    fun _ _ => rfl, ⟨[], by simp, by simp⟩, [], by simp, by simp⟩
 
 theorem setInst_get_self (w : World) (i : Nat) (o o' : Inst) (c : Ctx) (h : w.insts[i]? = some o) :
@@ -107,7 +107,7 @@ theorem onAttr_frame (w : World) (i : Nat) (n : Name) (f : TraitCore → OSt →
         have hctx : (w.focus o n).ctx = w.ctx := rfl
         obtain ⟨l, hl, hm⟩ := hs.log
         obtain ⟨k, hk, hn⟩ := hs.fcalls
-        refine ⟨rfl, fun j hj _ => setInst_get_other w i j _ _ hj, ?_, ?_, ?_, ?_, ?_, ⟨l, ?_, ?_⟩, k, ?_, ?_⟩
+        refine ⟨rfl, fun j hj => setInst_get_other w i j _ _ hj, ?_, ?_, ?_, ?_, ?_, ⟨l, ?_, ?_⟩, k, ?_, ?_⟩
         · simp [World.setInst]
         · intro o2 h2
           rw [hi] at h2
@@ -339,7 +339,7 @@ theorem step_frame (E : Env) (w : World) (op : WOp) (i : Nat) (ht : op.target = 
     | none => exact WFrame.refl j w
     | some o =>
       simp only []
-      refine ⟨rfl, fun k hk _ => setInst_get_other w j k _ _ hk, by simp [World.setInst], ?_, Nat.le_refl _,
+      refine ⟨rfl, fun k hk => setInst_get_other w j k _ _ hk, by simp [World.setInst], ?_, Nat.le_refl _,
         fun _ _ => Or.inl rfl, fun _ _ => rfl, ⟨[], by simp [World.setInst], by simp⟩, [], by simp [World.setInst],
         by simp⟩
       intro o2 h2
@@ -354,7 +354,7 @@ theorem step_frame (E : Env) (w : World) (op : WOp) (i : Nat) (ht : op.target = 
     | none => exact WFrame.refl j w
     | some o =>
       simp only []
-      refine ⟨rfl, fun k hk _ => setInst_get_other w j k _ _ hk, by simp [World.setInst], ?_, Nat.le_refl _,
+      refine ⟨rfl, fun k hk => setInst_get_other w j k _ _ hk, by simp [World.setInst], ?_, Nat.le_refl _,
         fun _ _ => Or.inl rfl, fun _ _ => rfl, ⟨[], by simp [World.setInst], by simp⟩, [], by simp [World.setInst],
         by simp⟩
       intro o2 h2
@@ -386,9 +386,9 @@ theorem step_frame (E : Env) (w : World) (op : WOp) (i : Nat) (ht : op.target = 
           obtain ⟨l, hl, hlm⟩ := hf.log
           obtain ⟨k, hk, hkm⟩ := hf.fcalls
           refine ⟨hf.classes, hf.others, hf.len, hf.ident, by rw [show ({ w1 with ctx := _ } : World).ctx.alloc
-              = (w1.ctx.mutate cid x).2.alloc from rfl, hm.1]; exact hf.le, ?_, ?_, ⟨l, ?_, hlm⟩, k, ?_, hkm⟩
-          rotate_left
-          · intro y hy
+              = (w1.ctx.mutate cid x).2.alloc from rfl, hm.1]; exact hf.le, ?_, ?kept, ⟨l, ?_, hlm⟩, k, ?_, hkm⟩
+          case kept =>
+            intro y hy
             show (heapGet (w1.ctx.mutate cid x).2.heap y).isSome = _
             rw [hm.2.2.2.2 y, hold y hy]
           · intro y hy
@@ -443,9 +443,9 @@ theorem step_frame (E : Env) (w : World) (op : WOp) (i : Nat) (ht : op.target = 
             obtain ⟨l, hl, hlm⟩ := hf.log
             obtain ⟨k, hk, hkm⟩ := hf.fcalls
             refine ⟨hf.classes, hf.others, hf.len, hf.ident, by rw [show ({ w1 with ctx := _ } : World).ctx.alloc
-                = (w1.ctx.mutate inner x).2.alloc from rfl, hm.1]; exact hf.le, ?_, ?_, ⟨l, ?_, hlm⟩, k, ?_, hkm⟩
-            rotate_left
-            · intro y hy
+                = (w1.ctx.mutate inner x).2.alloc from rfl, hm.1]; exact hf.le, ?_, ?kept, ⟨l, ?_, hlm⟩, k, ?_, hkm⟩
+            case kept =>
+              intro y hy
               show (heapGet (w1.ctx.mutate inner x).2.heap y).isSome = _
               rw [hm.2.2.2.2 y, hold y hy]
             · intro y hy
